@@ -281,11 +281,25 @@ def r3_status(P, rep, ctx):
     # walk: for each proper prefix of the path (shortest first, '.' dropped) descend to the child whose full path equals the prefix
     gens = [x for x in ast.walk(gtfi.node) if isinstance(x, ast.GeneratorExp) and len(x.generators) == 1 and len(x.generators[0].ifs) == 1 and MM.match("__c.children()", x.generators[0].iter) is not None]
     ok = len(gens) == 1
-    if ok:
+    by_key = False
+    if not gens:
+        # the same lookup through a (new) keyed accessor of the node: child(path) = the entry registered under `path` in one
+        # of the three buckets (children are stored under their own full path: C18.R2 'bucket roles')
+        cc = gt.call_sites("__c.child(__q)")
+        chm = P.cls(f"{D}.DiffNode").methods.get("child")
+        if cc and chm is not None:
+            cf = F(ctx, chm)
+            cp = chm.params[1]
+            bl = [n_ for n_ in cf.g.nodes if n_.kind == "for" and isinstance(n_.stmt.target, ast.Name) and isinstance(n_.stmt.iter, (ast.Tuple, ast.List)) and sorted(norm(e_) for e_ in n_.stmt.iter.elts) == ["self.added", "self.modified", "self.removed"]]
+            good_rets = all(v is None or (isinstance(v, ast.Constant) and v.value is None) or (bl and cf.x_at(i, v) == f"{bl[0].stmt.target.id}.get({cp})") for i, v in cf.returns())
+            by_key = len(bl) == 1 and good_rets and any(v is not None and not isinstance(v, ast.Constant) for i, v in cf.returns())
+            ok = by_key
+    if ok and not by_key:
         ge = gens[0]
         xv = norm(ge.generators[0].target)
         m = MM.match(f"{xv}.path == __q", ge.generators[0].ifs[0]) or MM.match(f"__q == {xv}.path", ge.generators[0].ifs[0])
         ok = m is not None and norm(ge.elt) == xv
+    if ok:
         lists = {}
         for nm_, ds_ in local_defs(gtfi).items():
             for k_, v_ in ds_:
